@@ -152,8 +152,39 @@ class LoopSpec:
         def var(self, name):
             ok, v = self.fr.lookup(name)
             if not ok:
-                raise Unsupported(f"loop invariant mentions undefined local {name}")
+                # the invariant names a local of the code; after a renaming it is looked for structurally: the unique
+                # accumulator of the loop (a name updated from its own value, or an object mutated by a method call /
+                # subscript store in the body) -- anything ambiguous stays out of reach
+                alt = self._accumulator()
+                if alt is not None:
+                    ok, v = self.fr.lookup(alt)
+                if not ok:
+                    raise Unsupported(f"loop invariant mentions undefined local {name}")
             return v
+
+        def _accumulator(self):
+            st = getattr(self, "loop_stmt", None)
+            if st is None:
+                return None
+            targets = {m.id for m in ast.walk(st.target) if isinstance(m, ast.Name)} if isinstance(st, ast.For) else set()
+            cands = []
+            for n in ast.walk(ast.Module(body=list(st.body), type_ignores=[])):
+                nm = None
+                if isinstance(n, ast.Assign) and len(n.targets) == 1 and isinstance(n.targets[0], ast.Name):
+                    t = n.targets[0].id
+                    if any(isinstance(m, ast.Name) and m.id == t for m in ast.walk(n.value)):
+                        nm = t
+                elif isinstance(n, ast.AugAssign) and isinstance(n.target, ast.Name):
+                    nm = n.target.id
+                elif isinstance(n, ast.Call) and isinstance(n.func, ast.Attribute) and isinstance(n.func.value, ast.Name) \
+                        and n.func.attr in ("append", "update", "add", "extend"):
+                    nm = n.func.value.id
+                elif isinstance(n, ast.Assign) and len(n.targets) == 1 and isinstance(n.targets[0], ast.Subscript) \
+                        and isinstance(n.targets[0].value, ast.Name):
+                    nm = n.targets[0].value.id
+                if nm and nm not in targets and nm not in cands and self.fr.lookup(nm)[0]:
+                    cands.append(nm)
+            return cands[0] if len(cands) == 1 else None
 
         def has(self, name):
             return self.fr.lookup(name)[0]
@@ -218,6 +249,7 @@ class LoopSpec:
         path = ip.path
         # initiation
         st0 = LoopSpec.State(ip, fr, z3.IntVal(0), n, S)
+        st0.loop_stmt = st
         goals0 = self._inv_terms(st0)
         ip.reg.saturate(ip)
         for j, g in enumerate(goals0):
@@ -228,6 +260,32 @@ class LoopSpec:
         target_names = [m.id for m in ast.walk(st.target) if isinstance(m, ast.Name)]
         mutated = self.havoc.get("__mutated__")
         # havoc
+        # list / dict specifications are keyed by the local's name; after a renaming the local is found structurally (the
+        # unique list appended to / dict stored into in the body); an unresolvable name puts the function out of reach
+        # (exit 2) instead of producing a refuted initialisation clause
+        def _resolve(kind):
+            names_ = []
+            for n_ in ast.walk(ast.Module(body=list(st.body), type_ignores=[])):
+                if kind == "list" and isinstance(n_, ast.Call) and isinstance(n_.func, ast.Attribute) and n_.func.attr == "append" \
+                        and isinstance(n_.func.value, ast.Name):
+                    nm_ = n_.func.value.id
+                elif kind == "dict" and isinstance(n_, ast.Assign) and len(n_.targets) == 1 and isinstance(n_.targets[0], ast.Subscript) \
+                        and isinstance(n_.targets[0].value, ast.Name):
+                    nm_ = n_.targets[0].value.id
+                else:
+                    continue
+                if nm_ not in names_ and fr.lookup(nm_)[0]:
+                    names_.append(nm_)
+            return names_
+        renamed = {}
+        for m, sp_ in list(self.havoc.items()):
+            if isinstance(sp_, (ListSpec, DictSpec)) and not fr.lookup(m)[0]:
+                cands_ = [x for x in _resolve("list" if isinstance(sp_, ListSpec) else "dict") if x not in self.havoc]
+                if len(cands_) != 1:
+                    raise Unsupported(f"loop {self.name}: the container '{m}' named by the sidecar is not a local of the function")
+                renamed[m] = cands_[0]
+        if renamed:
+            self.havoc = {renamed.get(m, m): sp_ for m, sp_ in self.havoc.items()}
         listspecs = {m: sp_ for m, sp_ in self.havoc.items() if isinstance(sp_, ListSpec)}
         for m in listspecs:
             ok0, cur0 = fr.lookup(m)
@@ -264,6 +322,7 @@ class LoopSpec:
             ip.reg.loop_index(ip, i)
             ip.reg.index_used(ip, i)        # element facts of every registered sequence at the arbitrary iteration
             sti = LoopSpec.State(ip, fr, i, n, S)
+            sti.loop_stmt = st
             for g in self._inv_terms(sti):
                 path.assume(g)
             ip.assign_target(st.target, S.get(i), fr)
@@ -275,6 +334,7 @@ class LoopSpec:
                 # state after break continues after the loop without the invariant at n
                 return
             stn = LoopSpec.State(ip, fr, i + 1, n, S)
+            stn.loop_stmt = st
             goalsn = self._inv_terms(stn)
             # lists built by append: exactly one element appended, and it is the specified element i
             assigned_in_body = [m for m in self.assigned_names(st.body)] + target_names
@@ -315,6 +375,7 @@ class LoopSpec:
         for m, ls in listspecs.items():
             fr.assign(m, SSeq(n, ls.spec_elem, "list", ls.tagname, tag=("listspec", ls.tagname)))
         ste = LoopSpec.State(ip, fr, n, n, S)
+        ste.loop_stmt = st
         for g in self._inv_terms(ste):
             path.assume(g)
         if self.after is not None:
